@@ -116,3 +116,11 @@ Print Assumptions C16_ndjson_hyp_sat.
 Theorem C16_constants_are_the_sources : constants_statement.
 Proof. exact constants_agree. Qed.
 Print Assumptions C16_constants_are_the_sources.
+
+(* value level, every type: cutting an item anywhere before its last byte leaves bytes that do not decode at its type, so a
+   truncated item is never mistaken for a shorter complete one (from the round trip and the extension property of dec) *)
+From YV Require Import Proofs.BinaryProofs Proofs.BinaryInjective.
+Theorem C16_item_cut_anywhere_undecodable : forall t v p q,
+  has_type t v = true -> enc t v = p ++ q -> q <> [] -> dec t p = None.
+Proof. exact enc_strict_prefix_undecodable. Qed.
+Print Assumptions C16_item_cut_anywhere_undecodable.
